@@ -24,6 +24,7 @@ type Group struct {
 	Coordinator int32
 	Offsets     map[TP]StoredOffset
 	Commits     []CommitEvent
+	M           *membership
 }
 
 type CommitEvent struct {
